@@ -189,7 +189,7 @@ def sha(s):
 
 
 def load_known():
-    p = os.path.join(VERIF, "known_findings.json")
+    p = os.environ.get("VERIF_KNOWN") or os.path.join(VERIF, "known_findings.json")
     if os.path.exists(p):
         return json.load(open(p))
     return {"findings": []}
